@@ -10,6 +10,7 @@ package main
 import (
 	"bufio"
 	"bytes"
+	"encoding/binary"
 	"encoding/json"
 	"flag"
 	"fmt"
@@ -62,6 +63,7 @@ type Seg struct {
 	SW      bool
 	UseSeg  bool // encode through MediaSegment (only without lazy data and Between boxes)
 	Dec     int  // 0 DecodeFile(init+seg) 1 DecodeFileSR(init+seg) 2 DecodeFile(seg) 3 DecodeFileSR(seg)
+	NoDec   bool // probe: stop after the data-offset oracle (payload too big to materialise)
 	Bad     bool // some Sample.Size differs from its data length (the decode stage is then not compared)
 }
 
@@ -258,7 +260,7 @@ func encodeFrag(f *mp4.Fragment, opt, sw bool) (b []byte, class byte) {
 	var err error
 	p := hx.Try(func() {
 		if sw {
-			w := bits.NewFixedSliceWriter(int(f.Size()) + int(f.Mdat.DataLength()) + len(f.Mdat.Data) + 64)
+			w := bits.NewFixedSliceWriter(int(f.Size()-f.Mdat.GetLazyDataSize()) + int(f.Mdat.DataLength()) + len(f.Mdat.Data) + 64)
 			err = f.EncodeSW(w)
 			b = append([]byte{}, w.Bytes()...)
 		} else {
@@ -543,6 +545,10 @@ func genSeg(r *hx.Rng, wild bool) *Seg {
 					s.S = sizePool[r.Intn(len(sizePool))] // size field not matching the data
 					sg.Bad = true
 				}
+				if wild && r.Intn(60) == 0 && (op.K == "M" || op.K == "A" || op.K == "S") {
+					s.S = pickU(r, 0x80000000, 0xfffffff0, 0x7ffffff0) // metadata-only sample of a huge payload
+					sg.Bad = true
+				}
 				op.Ss = append(op.Ss, s)
 				data = append(data, d...)
 				g.dts += uint64(s.D)
@@ -592,6 +598,7 @@ type segRun struct {
 	file     *mp4.File
 	trexs    []*mp4.TrexBox // index = track id (0 unused)
 	segBytes []byte
+	fragB    [][]byte // per fragment bytes (individual encoding only)
 }
 
 func runSeg(sg *Seg) *segRun {
@@ -673,6 +680,7 @@ func runSeg(sg *Seg) *segRun {
 				return sr
 			}
 			sr.fragLen = append(sr.fragLen, len(b))
+			sr.fragB = append(sr.fragB, b)
 			body.Write(b)
 			body.Write(r.lazy)
 			body.Write(encodeBoxes(sg.Frags[i].Between))
@@ -683,6 +691,9 @@ func runSeg(sg *Seg) *segRun {
 		sr.bytes = append(append([]byte{}, initB...), sr.segBytes...)
 	} else {
 		sr.bytes = sr.segBytes
+	}
+	if sg.NoDec {
+		return sr
 	}
 	sr.file, sr.decCls = decodeAll(sr.bytes, sg.Dec%2 == 1)
 	// trex boxes as the decode side sees them (through the encoded init)
@@ -737,6 +748,43 @@ func sameFull(a, b mp4.FullSample) string {
 	return ""
 }
 
+// checkOffsets: naive oracle for SetTrunDataOffsets on the encoded bytes b of one fragment: every trun's data offset
+// (relative to the moof start) is moof size + length of the mdat header actually written + sizes of the runs written before it.
+func checkOffsets(r *fragRun, b []byte) *failure {
+	pre := int(r.pre)
+	if len(b) < pre+8 {
+		return &failure{"Fragment.Encode", "short-output", "fewer bytes than the boxes before moof"}
+	}
+	moofSize := uint64(binary.BigEndian.Uint32(b[pre : pre+4]))
+	mp := pre + int(moofSize)
+	if len(b) < mp+8 || string(b[mp+4:mp+8]) != "mdat" {
+		return &failure{"Fragment.Encode", "layout", "no mdat right after moof"}
+	}
+	hdr := uint64(8)
+	if binary.BigEndian.Uint32(b[mp:mp+4]) == 1 {
+		hdr = 16
+	}
+	var truns []*mp4.TrunBox
+	for _, t := range r.f.Moof.Trafs {
+		truns = append(truns, t.Truns...)
+	}
+	sort.SliceStable(truns, func(i, j int) bool { return mp4.VerifC05WriteOrderNr(truns[i]) < mp4.VerifC05WriteOrderNr(truns[j]) })
+	acc := moofSize + hdr
+	for k, tr := range truns {
+		if int64(tr.DataOffset) != int64(acc) {
+			class := "data-offset"
+			if acc >= 1<<31 {
+				class = "data-offset-int32"
+			}
+			return &failure{"Fragment.SetTrunDataOffsets", class, fmt.Sprintf("run %d in write order: data offset %d, its data starts %d bytes after the moof start", k, tr.DataOffset, acc)}
+		}
+		for _, s := range tr.Samples {
+			acc += uint64(s.Size)
+		}
+	}
+	return nil
+}
+
 // checkSeg evaluates the property on one segment spec (nil = holds or the library refused with an error
 // for an empty fragment under optimisation).
 func checkSeg(sg *Seg) *failure {
@@ -766,6 +814,14 @@ func checkSeg(sg *Seg) *failure {
 			}
 			return &failure{"Fragment.Encode", "error", fmt.Sprintf("error when encoding fragment %d", i)}
 		}
+	}
+	for i, b := range sr.fragB {
+		if f := checkOffsets(sr.runs[i], b); f != nil {
+			return f
+		}
+	}
+	if sg.NoDec {
+		return nil
 	}
 	if sr.decCls != 'o' {
 		return &failure{"DecodeFile", map[byte]string{'p': "panic", 'e': "error"}[sr.decCls], "decoding the encoded segment fails"}
@@ -871,22 +927,52 @@ func cmdSearch(seed uint64, n int) {
 	r := hx.NewRng(mixSeed(seed, 0x5ea7c4))
 	evals := 0
 	seen := map[string]bool{}
+	report := func(sg *Seg, f *failure) {
+		key := f.site + "/" + f.class
+		if seen[key] {
+			return
+		}
+		seen[key] = true
+		small := shrink(sg, f)
+		f2 := checkSeg(small)
+		if f2 == nil {
+			f2, small = f, sg
+		}
+		w, _ := json.Marshal(small)
+		fmt.Fprintf(out, "FAIL\t%s\t%s\t%s\t%s\n", f2.site, f2.class, string(w), f2.desc)
+	}
+	// probes with metadata-only samples of huge payloads: only the data-offset oracle can be evaluated
+	big := []uint32{0xfffffff0, 0x80000000, 0x7ffffff0, 0x40000000}
+	for i := 0; i < n/20+8; i++ {
+		sg := &Seg{NTracks: 2, Trex: [][3]uint32{{}, {}}, NoDec: true, Opt: r.Bool(), SW: r.Bool()}
+		fr := Frag{Seq: 1, Multi: i%2 == 1, Tracks: []uint32{1}}
+		if fr.Multi {
+			fr.Tracks = []uint32{1, 2}
+		}
+		fr.TrafX = make([][]int, len(fr.Tracks))
+		nops := r.Range(1, 5)
+		for k := 0; k < nops; k++ {
+			s := Smp{F: 0, D: 10, S: 0}
+			if k == i%nops || r.Intn(3) == 0 {
+				s.S = big[r.Intn(len(big))]
+			}
+			op := Op{K: "M", Tr: fr.Tracks[r.Intn(len(fr.Tracks))], Ss: []Smp{s}, Dts: uint64(10 * k), Data: "-"}
+			if !fr.Multi && r.Bool() {
+				op.K = "A"
+			}
+			fr.Ops = append(fr.Ops, op)
+		}
+		sg.Frags = []Frag{fr}
+		evals++
+		if f := checkSeg(sg); f != nil {
+			report(sg, f)
+		}
+	}
 	for i := 0; i < n; i++ {
 		sg := genSeg(r, false)
 		evals++
 		if f := checkSeg(sg); f != nil {
-			key := f.site + "/" + f.class
-			if seen[key] {
-				continue
-			}
-			seen[key] = true
-			small := shrink(sg, f)
-			f2 := checkSeg(small)
-			if f2 == nil {
-				f2, small = f, sg
-			}
-			w, _ := json.Marshal(small)
-			fmt.Fprintf(out, "FAIL\t%s\t%s\t%s\t%s\n", f2.site, f2.class, string(w), f2.desc)
+			report(sg, f)
 		}
 	}
 	fmt.Fprintf(out, "EVALS\t%d\n", evals)
